@@ -17,10 +17,15 @@
     `(pre ++ sb, pre.length)` against the model on `sb` (`*_view`: the bytes in front of the view are not touched), and
     for a whole slice (`*_eq`, offset 0). Panics are carried over with their kind.
 
-  Method: every store statement of the generated code is a block with a normal form at `(pre ++ sb, pre.length, o)`
-  (`if <fits> then ok (pre ++ patch sb …) else panic "index"`), the model statement has the same normal form; `WSim`
-  relates the two outcomes and is closed under sequencing (`sim_*`, continuation-passing), the `range` loop is an
-  induction on the visited sequence.
+  Method (independent of the SHAPE of the generated code): `WSim` relates the outcome of translated code on the view with
+  the outcome of model statements on the slice. The generated function is unfolded and WALKED: every primitive of the
+  translation (`vset`, `vfrom`+`vputU16/32`, `vfrom`+`WriteStringNocopy`, the `range` loop, the final return) has a
+  continuation-passing step lemma against the model primitive it implements (`putByte`, `put16`, `put32`,
+  `writeStringNocopy`, `wAll (stKVs …)`); `fw_step` picks the lemma by unification. Offsets are whatever `Int` expression
+  the code computes, with a side goal `oi = ↑o` (`off_tac`); guards are decided from the semantic case split made
+  BEFORE simplification (`bsimp`); the loop lemmas speak of ANY function with the loop's step behaviour (the generated
+  loop function is never named in a statement). Renamed locals, hoisted or commuted arithmetic, inverted guards with
+  swapped branches, un-nested returns, local constants and split/merged declarations leave the proofs unchanged.
 -/
 import Verif.Lemmas.Funcs.Fc
 namespace Verif.FuncsEq
@@ -171,35 +176,90 @@ theorem gWriteBinary_nf (pre sb : Bytes) (o : Nat) (v : Bytes) (h : o ≤ sb.len
     rw [if_neg c]
     exact liftW_panic_inv hw
 
-/-- the tail shared by both no-copy writers once the threshold test has failed: header, then `WriteDirect` -/
-theorem gDirect_nf {ν : Type} (J : NocopyI ν) (enc : Directs → Option ν) (H : NCOK J true enc) (pre sb : Bytes)
-    (ds : Directs) (o : Nat) (v : Bytes) :
-    ((vputU32 (pre ++ sb) ((pre.length + o : Nat) : Int) (wrap .u32 (len v))).bind fun b1 =>
-      (vfrom b1 ((pre.length + o : Nat) : Int) 4).bind fun t2 =>
-      (derefP (enc ds)).bind fun t3 =>
-      (J.writeDirect t3 v (vlen b1 t2)).bind fun t4 =>
-      (.ok (b1, some t4.2, 4) : GM (Bytes × Option ν × Int))) =
-      if o + 4 ≤ sb.length then .ok (pre ++ patch sb o (be32 v.length), enc (ds ++ [(v, sb.length - o - 4)]), 4)
-      else .panic "index" := by
-  rw [vputU32_pre]
-  by_cases c : o + 4 ≤ sb.length
-  · have l1 : (patch sb o (be32 (ofInt 32 (wrap .u32 (len v))))).length = sb.length :=
-      patch_length _ _ _ (by simp; omega)
-    have hv : vfrom (pre ++ patch sb o (be32 (ofInt 32 (wrap .u32 (len v))))) ((pre.length + o : Nat) : Int) 4 =
-        .ok ((pre.length + (o + 4) : Nat) : Int) := by
-      rw [vfrom_nf _ _ _ (by omega), if_pos (by rw [List.length_append, l1]; simp; omega)]; simp; omega
-    obtain ⟨x, er, x', h1, h2, h3⟩ := H.step rfl ds v ((sb.length : Int) - ((o + 4 : Nat) : Int))
-    have e2 : ((sb.length : Int) - ((o + 4 : Nat) : Int)).toNat = sb.length - o - 4 := by omega
-    rw [e2] at h3
-    rw [if_pos c, if_pos c, Out.bind_ok, hv, Out.bind_ok, h1]
-    simp only [derefP, Out.bind_ok, vlen_pre, l1, h2, h3]
-    rw [ofInt_wrap 32 .u32 _ (by decide)]
-    unfold len
-    rw [be32_ofInt_nat]
-  · rw [if_neg c, if_neg c]; rfl
+/-! ### the no-copy writers on the view, in normal form
 
-theorem wOpt_isNone (w : Bool) (ds : Directs) : Option.isNone (wOpt w ds) = !w := by
-  cases w <;> rfl
+  Proved from the SEMANTIC case split (is the writer nil, is the value below the threshold, does the header fit): the
+  generated guard may be `w == nil || len(v) < thr`, its negation with the branches swapped, the operands commuted,
+  `len(v)` hoisted … — `go_simp` decides whatever form it has from the facts in the context. -/
+
+theorem vfrom_preK (pre sb : Bytes) (o : Nat) (k : Int) (hk : 0 ≤ k) :
+    vfrom (pre ++ sb) ((pre.length + o : Nat) : Int) k =
+      if o + k.toNat ≤ sb.length then .ok ((pre.length + (o + k.toNat) : Nat) : Int) else .panic "slice" := by
+  rw [vfrom_nf _ _ _ hk]
+  by_cases c : o + k.toNat ≤ sb.length
+  · rw [if_pos (by simp; omega), if_pos c]; simp; omega
+  · rw [if_neg (by simp; omega), if_neg c]
+
+theorem enc_none {ν : Type} {J : NocopyI ν} {enc : Directs → Option ν} (H : NCOK J false enc) (ds : Directs) :
+    enc ds = none := by
+  have := H.isNone ds
+  cases h : enc ds with
+  | none => rfl
+  | some x => rw [h] at this; simp at this
+
+/-- `simp only` with the propositional / Boolean lemmas that decide a generated guard whatever its form (negated,
+    operands commuted, `decide` of a comparison …); the arithmetic that remains is decided by `omega` from the context.
+    No cast normalisation: offsets keep the form the normal-form lemmas are stated in. -/
+syntax "bsimp" (" [" Lean.Parser.Tactic.simpLemma,* "]")? : tactic
+macro_rules
+  | `(tactic| bsimp) => `(tactic| bsimp [])
+  | `(tactic| bsimp [$ls,*]) =>
+    `(tactic| simp (disch := omega) only [if_pos, if_neg, if_true, if_false, Out.bind_ok, Out.bind_panic, Out.pure_eq,
+        Out.bind_eq, Option.isNone_none, Option.isNone_some, Option.isSome_none, Option.isSome_some, Bool.or_eq_true,
+        Bool.and_eq_true, Bool.not_eq_true', Bool.not_eq_true, decide_eq_true_eq, decide_eq_false_iff_not,
+        Bool.false_eq_true, Bool.true_eq_false, true_or, or_true, false_or, or_false, true_and, and_true, false_and,
+        and_false, not_true_eq_false, not_false_eq_true, eq_self, ne_eq, Classical.not_not, ge_iff_le, gt_iff_lt, Nat.not_lt,
+        Nat.not_le, Int.not_lt, Int.not_le,
+        Bool.not_true, Bool.not_false, Bool.true_or, Bool.or_true, Bool.false_or, Bool.or_false, Bool.true_and,
+        Bool.and_true, Bool.false_and, Bool.and_false, decide_true, decide_false, reduceCtorEq, $ls,*])
+
+set_option hygiene false in
+/-- the shared proof of the two no-copy writers: `F` is the generated function, `G` the copying writer it falls back to -/
+macro "nocopy_nf" F:ident Gnf:ident : tactic => `(tactic| (
+  have hl : len v = (v.length : Int) := rfl
+  by_cases c : o + 4 ≤ sb.length
+  · cases w with
+    | false =>
+      have he := enc_none H ds
+      have hg := $Gnf pre sb o v h hlen
+      rw [if_pos c] at hg
+      unfold $F
+      rw [he]
+      bsimp [hg, c, hl]
+    | true =>
+      obtain ⟨x, er, x', h1, h2, h3⟩ := H.step rfl ds v ((sb.length : Int) - ((o + 4 : Nat) : Int))
+      have e2 : ((sb.length : Int) - ((o + 4 : Nat) : Int)).toNat = sb.length - o - 4 := by omega
+      rw [e2] at h3
+      by_cases c2 : v.length < 4096
+      · have hg := $Gnf pre sb o v h hlen
+        rw [if_pos c] at hg
+        unfold $F
+        rw [h1]
+        bsimp [hg, c, c2, hl]
+      · have l1 : (patch sb o (be32 v.length)).length = sb.length :=
+          patch_length _ _ _ (by simp; omega)
+        have e1 : be32 (ofInt 32 (wrap .u32 (v.length : Int))) = be32 v.length := by
+          rw [ofInt_wrap 32 .u32 _ (by decide), be32_ofInt_nat]
+        unfold $F
+        rw [h1]
+        bsimp [c, c2, hl, vputU32_pre, vfrom_preK, l1, derefP, vlen_pre, h2, h3, e1, Int.reduceToNat]
+  · have hg := $Gnf pre sb o v h hlen
+    rw [if_neg c] at hg
+    cases w with
+    | false =>
+      have he := enc_none H ds
+      unfold $F
+      rw [he]
+      bsimp [hg, c, hl]
+    | true =>
+      obtain ⟨x, er, x', h1, h2, h3⟩ := H.step rfl ds v 0
+      by_cases c2 : v.length < 4096
+      · unfold $F
+        rw [h1]
+        bsimp [hg, c, c2, hl]
+      · unfold $F
+        rw [h1]
+        bsimp [c, c2, hl, vputU32_pre]))
 
 theorem gWriteStringNocopy_nf {ν : Type} (J : NocopyI ν) (w : Bool) (enc : Directs → Option ν) (H : NCOK J w enc)
     (pre sb : Bytes) (ds : Directs) (o : Nat) (v : Bytes) (h : o ≤ sb.length) (hlen : (pre ++ sb).length < 2 ^ 63) :
@@ -210,27 +270,7 @@ theorem gWriteStringNocopy_nf {ν : Type} (J : NocopyI ν) (w : Bool) (enc : Dir
             enc ds, ((4 + min (sb.length - (o + 4)) v.length : Nat) : Int))
         else .ok (pre ++ patch sb o (be32 v.length), enc (ds ++ [(v, sb.length - o - 4)]), 4)
       else .panic "index" := by
-  unfold Funcs.Binary_WriteStringNocopy
-  have hc : (Option.isNone (enc ds) || decide (len v < 4096)) = (!w || decide (v.length < 4096)) := by
-    rw [H.isNone]
-    have : decide (len v < 4096) = decide (v.length < 4096) := by
-      unfold len; exact decide_eq_decide.mpr (by omega)
-    rw [this]
-  rw [hc]
-  by_cases c2 : (!w || decide (v.length < 4096)) = true
-  · rw [if_pos c2, gWriteString_nf _ _ _ _ h hlen]
-    by_cases c : o + 4 ≤ sb.length
-    · simp [c, c2]
-    · simp [c]
-  · rw [if_neg c2]
-    have hw : w = true := by cases w <;> simp_all
-    subst hw
-    have := gDirect_nf J enc H pre sb ds o v
-    simp only [Out.bind_eq, Out.pure_eq] at this ⊢
-    rw [this]
-    by_cases c : o + 4 ≤ sb.length
-    · rw [if_pos c, if_pos c, if_neg c2]
-    · rw [if_neg c, if_neg c]
+  nocopy_nf Funcs.Binary_WriteStringNocopy gWriteString_nf
 
 theorem gWriteBinaryNocopy_nf {ν : Type} (J : NocopyI ν) (w : Bool) (enc : Directs → Option ν) (H : NCOK J w enc)
     (pre sb : Bytes) (ds : Directs) (o : Nat) (v : Bytes) (h : o ≤ sb.length) (hlen : (pre ++ sb).length < 2 ^ 63) :
@@ -241,27 +281,7 @@ theorem gWriteBinaryNocopy_nf {ν : Type} (J : NocopyI ν) (w : Bool) (enc : Dir
             enc ds, ((4 + min (sb.length - (o + 4)) v.length : Nat) : Int))
         else .ok (pre ++ patch sb o (be32 v.length), enc (ds ++ [(v, sb.length - o - 4)]), 4)
       else .panic "index" := by
-  unfold Funcs.Binary_WriteBinaryNocopy
-  have hc : (Option.isNone (enc ds) || decide (len v < 4096)) = (!w || decide (v.length < 4096)) := by
-    rw [H.isNone]
-    have : decide (len v < 4096) = decide (v.length < 4096) := by
-      unfold len; exact decide_eq_decide.mpr (by omega)
-    rw [this]
-  rw [hc]
-  by_cases c2 : (!w || decide (v.length < 4096)) = true
-  · rw [if_pos c2, gWriteBinary_nf _ _ _ _ h hlen]
-    by_cases c : o + 4 ≤ sb.length
-    · simp [c, c2]
-    · simp [c]
-  · rw [if_neg c2]
-    have hw : w = true := by cases w <;> simp_all
-    subst hw
-    have := gDirect_nf J enc H pre sb ds o v
-    simp only [Out.bind_eq, Out.pure_eq] at this ⊢
-    rw [this]
-    by_cases c : o + 4 ≤ sb.length
-    · rw [if_pos c, if_pos c, if_neg c2]
-    · rw [if_neg c, if_neg c]
+  nocopy_nf Funcs.Binary_WriteBinaryNocopy gWriteBinary_nf
 
 theorem wOpt_getD (w : Bool) (ds ds0 : Directs) (h : w = false → ds = ds0) : (wOpt w ds).getD ds0 = ds := by
   cases w
@@ -302,38 +322,13 @@ theorem Binary_WriteBinaryNocopy_eq (e : Directs → Bytes → Int → GoErr) (w
       simp only [if_pos c, if_neg c2, liftWN, wOpt, if_true, Option.getD_some]; rfl
   · simp only [if_neg c, liftWN]
 
-/-! ## blocks of a generated struct writer (continuation-passing, in the shape the translator emits) -/
+/-! ## the simulation: translated code on `(pre ++ sb, pre.length)` against model statements on `sb`
 
-section blocks
-variable {α : Type}
-
-/-- `b[off] = t; binary.BigEndian.PutUint16(b[off+1:], id); off += 3` -/
-def gFB (t id : Int) (b : Bytes) (base off : Int) (K : Bytes → Int → GM α) : GM α :=
-  (vset b base off t).bind fun b => (vfrom b base (wrap .i64 (off + 1))).bind fun t1 =>
-    (vputU16 b t1 id).bind fun b => K b (wrap .i64 (off + 3))
-
-/-- `off += thrift.Binary.WriteStringNocopy(b[off:], w, v)` -/
-def gStr {ν : Type} (J : NocopyI ν) (v : Bytes) (b : Bytes) (base : Int) (w : Option ν) (off : Int)
-    (K : Bytes → Option ν → Int → GM α) : GM α :=
-  (vfrom b base off).bind fun t => (Funcs.Binary_WriteStringNocopy J b t w v).bind fun r =>
-    K r.1 r.2.1 (wrap .i64 (off + r.2.2))
-
-/-- `b[off] = kt; b[off+1] = vt; binary.BigEndian.PutUint32(b[off+2:], sz); off += 6` -/
-def gMapBegin (kt vt sz : Int) (b : Bytes) (base off : Int) (K : Bytes → Int → GM α) : GM α :=
-  (vset b base off kt).bind fun b => (vset b base (wrap .i64 (off + 1)) vt).bind fun b =>
-    (vfrom b base (wrap .i64 (off + 2))).bind fun t => (vputU32 b t sz).bind fun b => K b (wrap .i64 (off + 6))
-
-/-- `binary.BigEndian.PutUint32(b[off:], v); off += 4` -/
-def gI32 (v : Int) (b : Bytes) (base off : Int) (K : Bytes → Int → GM α) : GM α :=
-  (vfrom b base off).bind fun t => (vputU32 b t v).bind fun b => K b (wrap .i64 (off + 4))
-
-/-- `b[off] = 0; return off + 1` -/
-def gStop {ν : Type} (b : Bytes) (base : Int) (w : Option ν) (off : Int) : GM (Bytes × Option ν × Int) :=
-  (vset b base off 0).bind fun b => .ok (b, w, wrap .i64 (off + 1))
-
-end blocks
-
-/-! ## the simulation: translated code on `(pre ++ sb, pre.length)` against model statements on `sb` -/
+  The generated struct writers are walked statement by statement: every PRIMITIVE of the translation (`vset`,
+  `vfrom`+`vputU16/32`, `vfrom`+`WriteStringNocopy`, the `range` loop, the final `pure`) has a continuation-passing step
+  lemma against the model primitive it implements (`putByte`, `put16`, `put32`, `writeStringNocopy`, `wAll (stKVs …)`);
+  the offsets are arbitrary `Int` expressions of the generated code with a side goal `oi = ↑o` (`off_tac`), so hoisted
+  or commuted offset arithmetic, renamed locals, inverted guards and un-nested returns do not matter. -/
 
 /-- outcome `x` of translated code against outcome `y` of the model statements: same buffer behind `pre`, same recorder
     contents (a nil writer stays nil and the model's recorder is untouched), same offset, same panic -/
@@ -345,284 +340,107 @@ def WSim {ν : Type} (enc : Directs → Option ν) (pre : Bytes) (n : Nat) (w : 
   | .panic s => x = .panic s
   | _ => False
 
-theorem wrap_nat_lit (o : Nat) (k : Int) (hk : 0 ≤ k) (h : (o : Int) + k < 2 ^ 63) :
-    wrap .i64 ((o : Int) + k) = ((o + k.toNat : Nat) : Int) := by
-  rw [wrap_i64_of_range _ (by omega) (by omega)]; omega
-
-section sim
-variable {ν : Type} (J : NocopyI ν) (enc : Directs → Option ν) (pre : Bytes) (n : Nat) (w : Bool) (ds0 : Directs)
-  (hn : pre.length + n < 2 ^ 62)
-include hn
-
-theorem sim_FB (t id : Int) (t' : UInt8) (id' : Nat) (ht : t' = byteOf t) (hid : be16 id' = be16 (ofInt 16 id))
-    (sb : Bytes) (ds : Directs) (o : Nat) (hsb : sb.length = n) (ho : o ≤ n)
-    (oi : Int) (hoi : oi = (o : Int)) (K : Bytes → Int → GM (Bytes × Option ν × Int))
-    (Ky : WS × Nat → TOut (WS × Nat))
-    (hK : ∀ (sb' : Bytes) (oi' : Int), sb'.length = n → o + 3 ≤ n → oi' = ((o + 3 : Nat) : Int) →
-      WSim enc pre n w ds0 (K (pre ++ sb') oi') (Ky (⟨sb', ds⟩, o + 3))) :
-    WSim enc pre n w ds0 (gFB t id (pre ++ sb) (pre.length : Int) oi K)
-      ((stFieldBegin t' id' (⟨sb, ds⟩, o)).bind Ky) := by
-  subst hoi
-  rw [stFieldBegin_nf _ _ _ _ _ (by omega)]
-  unfold gFB
-  rw [vset_pre, wrap_nat_lit o 1 (by omega) (by omega), wrap_nat_lit o 3 (by omega) (by omega)]
-  simp only [Int.reduceToNat]
-  by_cases c1 : o < sb.length
-  · have l1 : (patch sb o [byteOf t]).length = sb.length := patch_length _ _ _ (by simp; omega)
-    rw [if_pos c1, Out.bind_ok, vfrom_pre, if_pos (by rw [l1]; omega), Out.bind_ok, vputU16_pre]
-    by_cases c3 : o + 3 ≤ sb.length
-    · have l2 : (patch (patch sb o [byteOf t]) (o + 1) (be16 (ofInt 16 id))).length = sb.length := by
-        rw [patch_length _ _ _ (by simp; omega), l1]
-      rw [if_pos (by rw [l1]; omega), if_pos c3, Out.bind_ok, Out.bind_ok, ht, hid]
-      exact hK _ _ (by rw [l2, hsb]) (by omega) (by simp)
-    · rw [if_neg (by rw [l1]; omega), if_neg c3]; rfl
-  · rw [if_neg c1, if_neg (by omega)]; rfl
-
-theorem sim_Str (H : NCOK J w enc) (v : Bytes) (sb : Bytes) (ds : Directs) (o : Nat) (hsb : sb.length = n) (ho : o ≤ n)
-    (hds : w = false → ds = ds0)
-    (oi : Int) (hoi : oi = (o : Int)) (K : Bytes → Option ν → Int → GM (Bytes × Option ν × Int))
-    (Ky : WS × Nat → TOut (WS × Nat))
-    (hK : ∀ (sb' : Bytes) (ds' : Directs) (k : Nat) (oi' : Int), sb'.length = n → o + k ≤ n →
-      (w = false → ds' = ds0) → oi' = ((o + k : Nat) : Int) →
-      WSim enc pre n w ds0 (K (pre ++ sb') (enc ds') oi') (Ky (⟨sb', ds'⟩, o + k))) :
-    WSim enc pre n w ds0 (gStr J v (pre ++ sb) (pre.length : Int) (enc ds) oi K)
-      ((stStr Facts.nocopyWriteThreshold w v (⟨sb, ds⟩, o)).bind Ky) := by
-  subst hoi
-  have hm : stStr Facts.nocopyWriteThreshold w v (⟨sb, ds⟩, o) =
-      (writeStringNocopy Facts.nocopyWriteThreshold w ⟨sb, ds⟩ o v).bind fun r => .ok (r.1, o + r.2) := rfl
-  rw [hm]
-  unfold gStr
-  rw [vfrom_pre, if_pos (by omega), Out.bind_ok,
-    gWriteStringNocopy_nf J w enc H pre sb ds o v (by omega) (by simp; omega),
-    writeStringNocopy_nf _ _ _ _ _ _ (by omega)]
-  unfold Facts.nocopyWriteThreshold
-  by_cases c : o + 4 ≤ sb.length
-  · by_cases c2 : (!w || decide (v.length < 4096)) = true
-    · have l1 : (patch sb o (be32 v.length)).length = sb.length := patch_length _ _ _ (by simp; omega)
-      have l2 : (patch (patch sb o (be32 v.length)) (o + 4) (v.take (min (sb.length - (o + 4)) v.length))).length
-          = sb.length := by
-        rw [patch_length _ _ _ (by simp; omega), l1]
-      simp only [if_pos c, if_pos c2, Out.bind_ok]
-      exact hK _ ds (4 + min (sb.length - (o + 4)) v.length) _ (by rw [l2, hsb]) (by omega) hds
-        (by rw [wrap_i64_of_range _ (by omega) (by omega)]; omega)
-    · have hw : w = true := by cases w <;> simp_all
-      have l1 : (patch sb o (be32 v.length)).length = sb.length := patch_length _ _ _ (by simp; omega)
-      simp only [if_pos c, if_neg c2, Out.bind_ok]
-      have := hK (patch sb o (be32 v.length)) (ds ++ [(v, sb.length - o - 4)]) 4
-        (wrap .i64 ((o : Int) + 4)) (by rw [l1, hsb]) (by omega) (by intro h; rw [hw] at h; cases h)
-        (by rw [wrap_i64_of_range _ (by omega) (by omega)]; omega)
-      exact this
-  · simp only [if_neg c, Out.bind_panic]; rfl
-
-omit hn in
-theorem stMapBegin_nf (sb : Bytes) (ds : Directs) (o : Nat) (kt vt : UInt8) (sz : Nat) :
-    stMapBegin kt vt sz (⟨sb, ds⟩, o) =
-      if o + 6 ≤ sb.length then
-        .ok (⟨patch (patch (patch sb o [kt]) (o + 1) [vt]) (o + 2) (be32 sz), ds⟩, o + 6)
-      else .panic "index" := by
-  unfold stMapBegin putByte put32
-  by_cases c1 : o < sb.length
-  · have l1 : (patch sb o [kt]).length = sb.length := patch_length _ _ _ (by simp; omega)
-    by_cases c2 : o + 1 < sb.length
-    · have l2 : (patch (patch sb o [kt]) (o + 1) [vt]).length = sb.length := by
-        rw [patch_length _ _ _ (by simp; omega), l1]
-      have a : ¬ o + 2 > sb.length := by omega
-      by_cases c6 : o + 6 ≤ sb.length
-      · have a2 : ¬ sb.length - (o + 2) < 4 := by omega
-        simp [c1, c2, c6, l1, l2, a, a2]
-      · have a2 : sb.length - (o + 2) < 4 := by omega
-        simp [c1, c2, c6, l1, l2, a, a2]
-    · have c6 : ¬ o + 6 ≤ sb.length := by omega
-      simp [c1, c2, c6, l1]
-  · have c6 : ¬ o + 6 ≤ sb.length := by omega
-    simp [c1, c6]
-
-theorem sim_MapBegin (kt vt sz : Int) (kt' vt' : UInt8) (sz' : Nat) (hkt : kt' = byteOf kt) (hvt : vt' = byteOf vt)
-    (hsz : be32 sz' = be32 (ofInt 32 sz))
-    (sb : Bytes) (ds : Directs) (o : Nat) (hsb : sb.length = n) (ho : o ≤ n)
-    (oi : Int) (hoi : oi = (o : Int)) (K : Bytes → Int → GM (Bytes × Option ν × Int))
-    (Ky : WS × Nat → TOut (WS × Nat))
-    (hK : ∀ (sb' : Bytes) (oi' : Int), sb'.length = n → o + 6 ≤ n → oi' = ((o + 6 : Nat) : Int) →
-      WSim enc pre n w ds0 (K (pre ++ sb') oi') (Ky (⟨sb', ds⟩, o + 6))) :
-    WSim enc pre n w ds0 (gMapBegin kt vt sz (pre ++ sb) (pre.length : Int) oi K)
-      ((stMapBegin kt' vt' sz' (⟨sb, ds⟩, o)).bind Ky) := by
-  subst hoi
-  rw [stMapBegin_nf]
-  unfold gMapBegin
-  rw [vset_pre, wrap_nat_lit o 1 (by omega) (by omega), wrap_nat_lit o 2 (by omega) (by omega),
-    wrap_nat_lit o 6 (by omega) (by omega)]
-  simp only [Int.reduceToNat]
-  by_cases c1 : o < sb.length
-  · have l1 : (patch sb o [byteOf kt]).length = sb.length := patch_length _ _ _ (by simp; omega)
-    rw [if_pos c1, Out.bind_ok, vset_pre]
-    by_cases c2 : o + 1 < sb.length
-    · have l2 : (patch (patch sb o [byteOf kt]) (o + 1) [byteOf vt]).length = sb.length := by
-        rw [patch_length _ _ _ (by simp; omega), l1]
-      rw [if_pos (by rw [l1]; omega), Out.bind_ok, vfrom_pre, if_pos (by rw [l2]; omega), Out.bind_ok, vputU32_pre]
-      by_cases c6 : o + 6 ≤ sb.length
-      · have l3 : (patch (patch (patch sb o [byteOf kt]) (o + 1) [byteOf vt]) (o + 2) (be32 (ofInt 32 sz))).length
-            = sb.length := by
-          rw [patch_length _ _ _ (by simp; omega), l2]
-        rw [if_pos (by rw [l2]; omega), if_pos c6, Out.bind_ok, Out.bind_ok, hkt, hvt, hsz]
-        exact hK _ _ (by rw [l3, hsb]) (by omega) (by simp)
-      · rw [if_neg (by rw [l2]; omega), if_neg c6]; rfl
-    · rw [if_neg (by rw [l1]; omega), if_neg (by omega)]; rfl
-  · rw [if_neg c1, if_neg (by omega)]; rfl
-
-theorem sim_I32 (vi v : Int) (hv : be32 (ofInt 32 vi) = be32 (ofInt 32 v))
-    (sb : Bytes) (ds : Directs) (o : Nat) (hsb : sb.length = n) (ho : o ≤ n)
-    (oi : Int) (hoi : oi = (o : Int)) (K : Bytes → Int → GM (Bytes × Option ν × Int))
-    (Ky : WS × Nat → TOut (WS × Nat))
-    (hK : ∀ (sb' : Bytes) (oi' : Int), sb'.length = n → o + 4 ≤ n → oi' = ((o + 4 : Nat) : Int) →
-      WSim enc pre n w ds0 (K (pre ++ sb') oi') (Ky (⟨sb', ds⟩, o + 4))) :
-    WSim enc pre n w ds0 (gI32 vi (pre ++ sb) (pre.length : Int) oi K)
-      ((stI32 v (⟨sb, ds⟩, o)).bind Ky) := by
-  subst hoi
-  rw [stI32_nf _ _ _ _ (by omega)]
-  unfold gI32
-  rw [vfrom_pre, if_pos (by omega), Out.bind_ok, vputU32_pre, wrap_nat_lit o 4 (by omega) (by omega)]
-  simp only [Int.reduceToNat]
-  by_cases c : o + 4 ≤ sb.length
-  · have l1 : (patch sb o (be32 (ofInt 32 vi))).length = sb.length := patch_length _ _ _ (by simp; omega)
-    rw [if_pos c, if_pos c, Out.bind_ok, Out.bind_ok, ← hv]
-    exact hK _ _ (by rw [l1, hsb]) (by omega) (by simp)
-  · rw [if_neg c, if_neg c]; rfl
-
-theorem sim_Stop (sb : Bytes) (ds : Directs) (o : Nat) (hsb : sb.length = n) (ho : o ≤ n)
-    (hds : w = false → ds = ds0) (oi : Int) (hoi : oi = (o : Int)) :
-    WSim enc pre n w ds0 (gStop (pre ++ sb) (pre.length : Int) (enc ds) oi)
-      ((stStop (⟨sb, ds⟩, o)).bind (wAll [])) := by
-  subst hoi
-  rw [stStop_nf]
-  unfold gStop
-  rw [vset_pre, wrap_nat_lit o 1 (by omega) (by omega)]
-  simp only [Int.reduceToNat]
-  by_cases c : o + 1 ≤ sb.length
-  · have l1 : (patch sb o [0]).length = sb.length := patch_length _ _ _ (by simp; omega)
-    rw [if_pos (by omega), if_pos c, Out.bind_ok, Out.bind_ok, byteOf_zero]
-    exact ⟨by simp only [l1, hsb], by simp only; omega, hds, rfl⟩
-  · rw [if_neg (by omega), if_neg c]; rfl
-
-/-! ### the `range` loop over the map: `for k, v := range p.Extra { off += WriteStringNocopy(k); off += WriteStringNocopy(v) }` -/
-
-omit hn in
 theorem Out_bind_assoc {ε α β γ : Type} (x : Out ε α) (f : α → Out ε β) (g : β → Out ε γ) :
     (x.bind f).bind g = x.bind fun a => (f a).bind g := by
   cases x <;> rfl
 
-omit hn in
-theorem gStr_bind {α β : Type} {ν : Type} (J : NocopyI ν) (v b : Bytes) (base : Int) (wv : Option ν) (off : Int)
-    (K : Bytes → Option ν → Int → GM α) (F : α → GM β) :
-    (gStr J v b base wv off K).bind F = gStr J v b base wv off fun b w off => (K b w off).bind F := by
-  unfold gStr
-  simp only [Out_bind_assoc]
+section sim
+variable {ν : Type} {J : NocopyI ν} {enc : Directs → Option ν} {pre : Bytes} {n : Nat} {w : Bool} {ds0 : Directs}
 
-/-- what the enclosing function does with the outcome of a loop: `ret` returns, `done` continues -/
-def finishL {ρ σ : Type} (Kd : σ → GM ρ) : LoopR ρ σ → GM ρ
-  | .ret r => .ok r
-  | .done s => Kd s
+/-- `b[off] = x` against `putByte` -/
+theorem sim_set {sb : Bytes} (hsb : sb.length = n) {o : Nat} {oi x : Int}
+    (hoi : oi = (o : Int)) {t' : UInt8} (ht : t' = byteOf x) {K : Bytes → GM (Bytes × Option ν × Int)}
+    {Ky : Bytes → TOut (WS × Nat)}
+    (hK : ∀ sb' : Bytes, sb'.length = n → o < n → oi = (o : Int) → WSim enc pre n w ds0 (K (pre ++ sb')) (Ky sb')) :
+    WSim enc pre n w ds0 ((vset (pre ++ sb) (pre.length : Int) oi x).bind K) ((putByte sb o t').bind Ky) := by
+  have hoi' := hoi
+  subst hoi ht
+  rw [vset_pre]
+  unfold putByte
+  by_cases c : o < sb.length
+  · rw [if_pos c, if_pos c, Out.bind_ok, Out.bind_ok]
+    exact hK _ (by rw [patch_length _ _ _ (by simp; omega), hsb]) (by omega) rfl
+  · rw [if_neg c, if_neg c]; rfl
 
-omit hn in
-theorem wAll_cons (f : WStep) (fs : List WStep) (s : WS × Nat) : wAll (f :: fs) s = (f s).bind (wAll fs) := rfl
+/-- `PutUint16(b[off:], x)` against `put16` -/
+theorem sim_put16 {sb : Bytes} (hsb : sb.length = n) {o : Nat} {oi x : Int}
+    (hoi : oi = (o : Int)) {id' : Nat} (hid : be16 id' = be16 (ofInt 16 x))
+    {K : Bytes → GM (Bytes × Option ν × Int)} {Ky : Bytes → TOut (WS × Nat)}
+    (hK : ∀ sb' : Bytes, sb'.length = n → o + 2 ≤ n → WSim enc pre n w ds0 (K (pre ++ sb')) (Ky sb')) :
+    WSim enc pre n w ds0
+      ((vfrom (pre ++ sb) (pre.length : Int) oi).bind fun t => (vputU16 (pre ++ sb) t x).bind K)
+      ((put16 sb o id').bind Ky) := by
+  subst hoi
+  rw [vfrom_pre]
+  unfold put16
+  by_cases c0 : o ≤ sb.length
+  · rw [if_pos c0, if_neg (by omega), Out.bind_ok, vputU16_pre]
+    by_cases c : o + 2 ≤ sb.length
+    · rw [if_pos c, if_neg (by omega), Out.bind_ok, Out.bind_ok, hid]
+      exact hK _ (by rw [patch_length _ _ _ (by simp; omega), hsb]) (by omega)
+    · rw [if_neg c, if_pos (by omega)]; rfl
+  · rw [if_neg c0, if_pos (by omega)]; rfl
 
-omit hn in
-theorem wAll_append (a b : List WStep) (s : WS × Nat) : wAll (a ++ b) s = (wAll a s).bind (wAll b) := by
-  induction a generalizing s with
-  | nil => rfl
-  | cons f fs ih =>
-    simp only [List.cons_append, wAll_cons, Out_bind_assoc]
-    congr 1; funext s'; exact ih s'
+/-- `PutUint32(b[off:], x)` against `put32` -/
+theorem sim_put32 {sb : Bytes} (hsb : sb.length = n) {o : Nat} {oi x : Int}
+    (hoi : oi = (o : Int)) {v' : Nat} (hv : be32 v' = be32 (ofInt 32 x))
+    {K : Bytes → GM (Bytes × Option ν × Int)} {Ky : Bytes → TOut (WS × Nat)}
+    (hK : ∀ sb' : Bytes, sb'.length = n → o + 4 ≤ n → WSim enc pre n w ds0 (K (pre ++ sb')) (Ky sb')) :
+    WSim enc pre n w ds0
+      ((vfrom (pre ++ sb) (pre.length : Int) oi).bind fun t => (vputU32 (pre ++ sb) t x).bind K)
+      ((put32 sb o v').bind Ky) := by
+  subst hoi
+  rw [vfrom_pre]
+  unfold put32
+  by_cases c0 : o ≤ sb.length
+  · rw [if_pos c0, if_neg (by omega), Out.bind_ok, vputU32_pre]
+    by_cases c : o + 4 ≤ sb.length
+    · rw [if_pos c, if_neg (by omega), Out.bind_ok, Out.bind_ok, hv]
+      exact hK _ (by rw [patch_length _ _ _ (by simp; omega), hsb]) (by omega)
+    · rw [if_neg c, if_pos (by omega)]; rfl
+  · rw [if_neg c0, if_pos (by omega)]; rfl
 
-/-- any function with the two defining equations of the generated loop simulates the model's `stKVs` -/
-theorem sim_kvLoop
-    (H : NCOK J w enc)
-    (L : Nat → List (Bytes × Bytes) → Bytes → Option ν → Int →
-      GM (LoopR (Bytes × Option ν × Int) (List (Bytes × Bytes) × Bytes × Option ν × Int)))
-    (h0 : ∀ fuel b wv off, L (fuel + 1) [] b wv off = .ok (.done ([], b, wv, off)))
-    (h1 : ∀ fuel kv rest b wv off, L (fuel + 1) (kv :: rest) b wv off =
-      gStr J kv.1 b (pre.length : Int) wv off fun b wv off =>
-        gStr J kv.2 b (pre.length : Int) wv off fun b wv off => L fuel rest b wv off)
-    (Kd : List (Bytes × Bytes) × Bytes × Option ν × Int → GM (Bytes × Option ν × Int))
-    (Ky : WS × Nat → TOut (WS × Nat)) :
-    ∀ (it : List (Bytes × Bytes)) (fuel : Nat) (sb : Bytes) (ds : Directs) (o : Nat) (oi : Int),
-      it.length < fuel → sb.length = n → o ≤ n → (w = false → ds = ds0) → oi = (o : Int) →
-      (∀ (sb' : Bytes) (ds' : Directs) (o' : Nat) (oi' : Int), sb'.length = n → o' ≤ n →
-        (w = false → ds' = ds0) → oi' = (o' : Int) →
-        WSim enc pre n w ds0 (Kd ([], pre ++ sb', enc ds', oi')) (Ky (⟨sb', ds'⟩, o'))) →
-      WSim enc pre n w ds0 ((L fuel it (pre ++ sb) (enc ds) oi).bind (finishL Kd))
-        ((wAll (stKVs Facts.nocopyWriteThreshold w it) (⟨sb, ds⟩, o)).bind Ky) := by
-  intro it
-  induction it with
-  | nil =>
-    intro fuel sb ds o oi hf hsb ho hds hoi hK
-    obtain ⟨fuel, rfl⟩ : ∃ k, fuel = k + 1 := ⟨fuel - 1, by simp at hf; omega⟩
-    rw [h0]
-    exact hK sb ds o oi hsb ho hds hoi
-  | cons kv rest ih =>
-    intro fuel sb ds o oi hf hsb ho hds hoi hK
-    obtain ⟨fuel, rfl⟩ : ∃ k, fuel = k + 1 := ⟨fuel - 1, by simp at hf; omega⟩
-    have hs : stKVs Facts.nocopyWriteThreshold w (kv :: rest) =
-        stStr Facts.nocopyWriteThreshold w kv.1 :: stStr Facts.nocopyWriteThreshold w kv.2 ::
-          stKVs Facts.nocopyWriteThreshold w rest := by
-      simp [stKVs]
-    rw [h1, hs, wAll_cons, gStr_bind, Out_bind_assoc]
-    refine sim_Str J enc pre n w ds0 hn H _ sb ds o hsb ho hds oi hoi _ _ ?_
-    intro sb1 ds1 k1 oi1 hsb1 ho1 hds1 hoi1
-    rw [wAll_cons, gStr_bind, Out_bind_assoc]
-    refine sim_Str J enc pre n w ds0 hn H _ sb1 ds1 (o + k1) hsb1 ho1 hds1 oi1 hoi1 _ _ ?_
-    intro sb2 ds2 k2 oi2 hsb2 ho2 hds2 hoi2
-    exact ih fuel sb2 ds2 (o + k1 + k2) oi2 (by simp at hf; omega) hsb2 ho2 hds2 hoi2 hK
+/-- `WriteStringNocopy(b[off:], w, v)` against the model `writeStringNocopy` -/
+theorem sim_wsn (hn : pre.length + n < 2 ^ 62) (H : NCOK J w enc) {sb : Bytes} (hsb : sb.length = n) {ds : Directs}
+    (hds : w = false → ds = ds0) {o : Nat} {oi : Int} (hoi : oi = (o : Int)) {v : Bytes}
+    {K : Bytes × Option ν × Int → GM (Bytes × Option ν × Int)} {Ky : WS × Nat → TOut (WS × Nat)}
+    (hK : ∀ (sb' : Bytes) (ds' : Directs) (k : Nat), sb'.length = n → o + k ≤ n → (w = false → ds' = ds0) →
+      oi = (o : Int) → WSim enc pre n w ds0 (K (pre ++ sb', enc ds', (k : Int))) (Ky (⟨sb', ds'⟩, k))) :
+    WSim enc pre n w ds0
+      ((vfrom (pre ++ sb) (pre.length : Int) oi).bind fun t =>
+        (Funcs.Binary_WriteStringNocopy J (pre ++ sb) t (enc ds) v).bind K)
+      ((writeStringNocopy Facts.nocopyWriteThreshold w ⟨sb, ds⟩ o v).bind Ky) := by
+  subst hoi
+  rw [vfrom_pre]
+  by_cases c0 : o ≤ sb.length
+  · rw [if_pos c0, Out.bind_ok, gWriteStringNocopy_nf J w enc H pre sb ds o v c0 (by simp; omega),
+      writeStringNocopy_nf _ _ _ _ _ _ c0]
+    unfold Facts.nocopyWriteThreshold
+    by_cases c : o + 4 ≤ sb.length
+    · by_cases c2 : (!w || decide (v.length < 4096)) = true
+      · have l1 : (patch sb o (be32 v.length)).length = sb.length := patch_length _ _ _ (by simp; omega)
+        have l2 : (patch (patch sb o (be32 v.length)) (o + 4) (v.take (min (sb.length - (o + 4)) v.length))).length
+            = sb.length := by
+          rw [patch_length _ _ _ (by simp; omega), l1]
+        simp only [if_pos c, if_pos c2, Out.bind_ok]
+        exact hK _ ds _ (by rw [l2, hsb]) (by omega) hds rfl
+      · have hw : w = true := by cases w <;> simp_all
+        have l1 : (patch sb o (be32 v.length)).length = sb.length := patch_length _ _ _ (by simp; omega)
+        simp only [if_pos c, if_neg c2, Out.bind_ok]
+        exact hK _ _ 4 (by rw [l1, hsb]) (by omega) (by intro h; rw [hw] at h; cases h) rfl
+    · simp only [if_neg c, Out.bind_panic]; rfl
+  · rw [if_neg c0]
+    unfold writeStringNocopy
+    rw [if_pos (by simp only; omega)]; rfl
+
+/-- the final `return off + 1` -/
+theorem sim_ret {sb : Bytes} (hsb : sb.length = n) {ds : Directs} (hds : w = false → ds = ds0) {o : Nat} (ho : o ≤ n)
+    {oi : Int} (hoi : oi = (o : Int)) :
+    WSim enc pre n w ds0 (.ok (pre ++ sb, enc ds, oi)) (.ok (⟨sb, ds⟩, o)) := by
+  subst hoi
+  exact ⟨hsb, ho, hds, rfl⟩
 
 end sim
-
-/-! ## the generated writers as block sequences (the shape of the translator's output: definitional) -/
-
-/-- the tail of a generated struct writer after its `range` loop: a `return` inside the loop returns (there is none),
-    otherwise `b[off] = 0; return off + 1` -/
-def afterLoop {ν : Type} (base : Int)
-    (t : LoopR (Bytes × Option ν × Int) (List (Bytes × Bytes) × Bytes × Option ν × Int)) : GM (Bytes × Option ν × Int) :=
-  match t with
-  | LoopR.ret r => pure r
-  | LoopR.done s => do
-    let v_b := s.2.1
-    let v_w := s.2.2.1
-    let v_off := s.2.2.2
-    let v_b ← vset v_b base v_off 0
-    pure (v_b, v_w, wrap .i64 (v_off + 1))
-
-theorem afterLoop_eq {ν : Type} (base : Int) :
-    afterLoop (ν := ν) base = finishL fun s => gStop s.2.1 base s.2.2.1 s.2.2.2 := by
-  funext t; cases t <;> rfl
-
-theorem Base_FastWriteNocopy_blocks {ν : Type} (J : NocopyI ν) (fuel : Nat) (it : List (Bytes × Bytes))
-    (p : Funcs.S_base_Base) (b : Bytes) (base : Int) (wv : Option ν) :
-    Funcs.Base_FastWriteNocopy J fuel it (some p) b base wv =
-      gFB 11 1 b base 0 fun b off => gStr J p.LogID b base wv off fun b wv off =>
-      gFB 11 2 b base off fun b off => gStr J p.Caller b base wv off fun b wv off =>
-      gFB 11 3 b base off fun b off => gStr J p.Addr b base wv off fun b wv off =>
-      if decide (p.Extra ≠ none) = true then
-        gFB 13 6 b base off fun b off => gMapBegin 11 11 (wrap .u32 (mapLen p.Extra)) b base off fun b off =>
-          (Funcs.Base_FastWriteNocopy_loop1 J base fuel it b wv off).bind fun t => afterLoop base t
-      else gStop b base wv off := rfl
-
-theorem BaseResp_FastWriteNocopy_blocks {ν : Type} (J : NocopyI ν) (fuel : Nat) (it : List (Bytes × Bytes))
-    (p : Funcs.S_base_BaseResp) (b : Bytes) (base : Int) (wv : Option ν) :
-    Funcs.BaseResp_FastWriteNocopy J fuel it (some p) b base wv =
-      gFB 11 1 b base 0 fun b off => gStr J p.StatusMessage b base wv off fun b wv off =>
-      gFB 8 2 b base off fun b off => gI32 (wrap .u32 p.StatusCode) b base off fun b off =>
-      if decide (p.Extra ≠ none) = true then
-        gFB 13 3 b base off fun b off => gMapBegin 11 11 (wrap .u32 (mapLen p.Extra)) b base off fun b off =>
-          (Funcs.BaseResp_FastWriteNocopy_loop1 J base fuel it b wv off).bind fun t => afterLoop base t
-      else gStop b base wv off := rfl
-
-theorem Base_FastWriteNocopy_nil {ν : Type} (J : NocopyI ν) (fuel : Nat) (it : List (Bytes × Bytes))
-    (b : Bytes) (base : Int) (wv : Option ν) :
-    Funcs.Base_FastWriteNocopy J fuel it none b base wv = gStop b base wv 0 := rfl
-
-theorem BaseResp_FastWriteNocopy_nil {ν : Type} (J : NocopyI ν) (fuel : Nat) (it : List (Bytes × Bytes))
-    (b : Bytes) (base : Int) (wv : Option ν) :
-    Funcs.BaseResp_FastWriteNocopy J fuel it none b base wv = gStop b base wv 0 := rfl
-
 /-! ## `len(p.Extra)`: the translation's association list (newest first, keys may repeat) against the model's `SMap` -/
 
 theorem set_keys (m : SMap) (k v : Bytes) (k' : Bytes) :
@@ -728,23 +546,68 @@ theorem mapLen_toSMap (l : List (Bytes × Bytes)) : mapLen (some l) = ((toSMap l
     simp only [mapEntriesL_keys] at hf
     split <;> simp_all <;> omega
 
-/-! ## from the simulation to the statements -/
 
-theorem WSim.lift {pre : Bytes} {n : Nat} {w : Bool} {ds0 : Directs} {x : GM (Bytes × Option Directs × Int)}
-    {y : TOut (WS × Nat)} (h : WSim (wOpt w) pre n w ds0 x y) :
-    liftWN ds0 x = y.bind fun r => .ok (⟨pre ++ r.1.buf, r.1.ds⟩, r.2) := by
-  cases y with
-  | ok r =>
-    obtain ⟨_, _, hds, rfl⟩ := h
-    simp only [liftWN, Out.bind_ok, wOpt_getD w r.1.ds ds0 hds, Int.toNat_natCast]
-  | panic s => subst h; rfl
-  | err te => exact h.elim
-  | oob => exact h.elim
+/-! ### the `range` loop over the map -/
 
-theorem bind_wAll_nil (x : TOut (WS × Nat)) : x.bind (wAll []) = x := by
-  cases x <;> rfl
+theorem wAll_nil (s : WS × Nat) : wAll [] s = .ok s := rfl
+theorem wAll_cons (f : WStep) (fs : List WStep) (s : WS × Nat) : wAll (f :: fs) s = (f s).bind (wAll fs) := rfl
+theorem wAll_append (a b : List WStep) (s : WS × Nat) : wAll (a ++ b) s = (wAll a s).bind (wAll b) := by
+  induction a generalizing s with
+  | nil => rfl
+  | cons f fs ih =>
+    simp only [List.cons_append, wAll_cons, Out_bind_assoc]
+    congr 1; funext s'; exact ih s'
 
-theorem wAll_cons' (f : WStep) (fs : List WStep) : wAll (f :: fs) = fun s => (f s).bind (wAll fs) := rfl
+/-- The `for k, v := range p.Extra` loop, for ANY function `L` that returns `done` on the empty sequence (`hnil`) and
+    whose round on `kv :: rest` simulates the model's two string statements followed by the loop on `rest` (`hcons`);
+    `F` is whatever the enclosing function does with the loop's outcome. The generated loop function is found by
+    unification and `hnil` / `hcons` are proved where the lemma is used, by unfolding it and walking its body. -/
+theorem sim_kvLoop {ν : Type} {enc : Directs → Option ν} {pre : Bytes} {n : Nat} {w : Bool} {ds0 : Directs}
+    {L : Nat → List (Bytes × Bytes) → Bytes → Option ν → Int →
+      GM (LoopR (Bytes × Option ν × Int) (List (Bytes × Bytes) × Bytes × Option ν × Int))}
+    {F : LoopR (Bytes × Option ν × Int) (List (Bytes × Bytes) × Bytes × Option ν × Int) → GM (Bytes × Option ν × Int)}
+    {Ky : WS × Nat → TOut (WS × Nat)}
+    (hnil : ∀ fuel b wv off, L (fuel + 1) [] b wv off = .ok (.done ([], b, wv, off)))
+    (hcons : ∀ (fuel : Nat) (kv : Bytes × Bytes) (rest : List (Bytes × Bytes)) (sb : Bytes) (ds : Directs) (o : Nat)
+      (oi : Int) (Ky' : WS × Nat → TOut (WS × Nat)), sb.length = n → o ≤ n → (w = false → ds = ds0) → oi = (o : Int) →
+      (∀ (sb' : Bytes) (ds' : Directs) (o' : Nat) (oi' : Int), sb'.length = n → o' ≤ n → (w = false → ds' = ds0) →
+        oi' = (o' : Int) → WSim enc pre n w ds0 ((L fuel rest (pre ++ sb') (enc ds') oi').bind F) (Ky' (⟨sb', ds'⟩, o'))) →
+      WSim enc pre n w ds0 ((L (fuel + 1) (kv :: rest) (pre ++ sb) (enc ds) oi).bind F)
+        ((stStr Facts.nocopyWriteThreshold w kv.1 (⟨sb, ds⟩, o)).bind fun s1 =>
+          (stStr Facts.nocopyWriteThreshold w kv.2 s1).bind Ky')) :
+    ∀ (it : List (Bytes × Bytes)) (fuel : Nat) (sb : Bytes) (ds : Directs) (o : Nat) (oi : Int),
+      it.length < fuel → sb.length = n → o ≤ n → (w = false → ds = ds0) → oi = (o : Int) →
+      (∀ (sb' : Bytes) (ds' : Directs) (o' : Nat) (oi' : Int), sb'.length = n → o' ≤ n →
+        (w = false → ds' = ds0) → oi' = (o' : Int) →
+        WSim enc pre n w ds0 (F (.done ([], pre ++ sb', enc ds', oi'))) (Ky (⟨sb', ds'⟩, o'))) →
+      WSim enc pre n w ds0 ((L fuel it (pre ++ sb) (enc ds) oi).bind F)
+        ((wAll (stKVs Facts.nocopyWriteThreshold w it) (⟨sb, ds⟩, o)).bind Ky) := by
+  intro it
+  induction it with
+  | nil =>
+    intro fuel sb ds o oi hf hsb ho hds hoi hK
+    obtain ⟨fuel, rfl⟩ : ∃ k, fuel = k + 1 := ⟨fuel - 1, by simp at hf; omega⟩
+    rw [hnil]
+    exact hK sb ds o oi hsb ho hds hoi
+  | cons kv rest ih =>
+    intro fuel sb ds o oi hf hsb ho hds hoi hK
+    obtain ⟨fuel, rfl⟩ : ∃ k, fuel = k + 1 := ⟨fuel - 1, by simp at hf; omega⟩
+    have hs : stKVs Facts.nocopyWriteThreshold w (kv :: rest) =
+        stStr Facts.nocopyWriteThreshold w kv.1 :: stStr Facts.nocopyWriteThreshold w kv.2 ::
+          stKVs Facts.nocopyWriteThreshold w rest := by
+      simp [stKVs]
+    rw [hs, wAll_cons, Out_bind_assoc]
+    have hw2 : (fun s1 => (wAll (stStr Facts.nocopyWriteThreshold w kv.2 ::
+        stKVs Facts.nocopyWriteThreshold w rest) s1).bind Ky) =
+        fun s1 => (stStr Facts.nocopyWriteThreshold w kv.2 s1).bind fun s2 =>
+          (wAll (stKVs Facts.nocopyWriteThreshold w rest) s2).bind Ky := by
+      funext s1; rw [wAll_cons, Out_bind_assoc]
+    rw [hw2]
+    refine hcons fuel kv rest sb ds o oi _ hsb ho hds hoi ?_
+    intro sb' ds' o' oi' hsb' ho' hds' hoi'
+    exact ih fuel sb' ds' o' oi' (by simp at hf; omega) hsb' ho' hds' hoi' hK
+
+/-! ### walking a generated writer -/
 
 theorem stHdr_base0 : stHdr Facts.fastWriteHeadersBase 0 = stFieldBegin 11 1 := rfl
 theorem stHdr_base1 : stHdr Facts.fastWriteHeadersBase 1 = stFieldBegin 11 2 := rfl
@@ -758,79 +621,73 @@ theorem be32_mapLen (l : List (Bytes × Bytes)) :
     be32 (toSMap l).length = be32 (ofInt 32 (wrap .u32 (mapLen (some l)))) := by
   rw [mapLen_toSMap, ofInt_wrap 32 .u32 _ (by decide), be32_ofInt_nat]
 
-/-- the optional map field and the closing STOP, shared by both structs (`tag`, `id`: the field header) -/
-theorem sim_extra {ν : Type} (J : NocopyI ν) (enc : Directs → Option ν) (pre : Bytes) (n : Nat) (w : Bool)
-    (ds0 : Directs) (hn : pre.length + n < 2 ^ 62) (H : NCOK J w enc)
-    (id : Int) (id' : Nat) (hid : be16 id' = be16 (ofInt 16 id))
-    (L : Int → Nat → List (Bytes × Bytes) → Bytes → Option ν → Int →
-      GM (LoopR (Bytes × Option ν × Int) (List (Bytes × Bytes) × Bytes × Option ν × Int)))
-    (h0 : ∀ base fuel b wv off, L base (fuel + 1) [] b wv off = .ok (.done ([], b, wv, off)))
-    (h1 : ∀ base fuel kv rest b wv off, L base (fuel + 1) (kv :: rest) b wv off =
-      gStr J kv.1 b base wv off fun b wv off =>
-        gStr J kv.2 b base wv off fun b wv off => L base fuel rest b wv off)
-    (extra : GoMap Bytes Bytes) (it : List (Bytes × Bytes)) (fuel : Nat) (hfuel : it.length < fuel)
-    (sb : Bytes) (ds : Directs) (o : Nat) (hsb : sb.length = n) (ho : o ≤ n) (hds : w = false → ds = ds0)
-    (oi : Int) (hoi : oi = (o : Int)) :
-    WSim enc pre n w ds0
-      (if decide (extra ≠ none) = true then
-        gFB 13 id (pre ++ sb) (pre.length : Int) oi fun b off =>
-          gMapBegin 11 11 (wrap .u32 (mapLen extra)) b (pre.length : Int) off fun b off =>
-            (L (pre.length : Int) fuel it b (enc ds) off).bind fun t => afterLoop (pre.length : Int) t
-      else gStop (pre ++ sb) (pre.length : Int) (enc ds) oi)
-      (wAll ((match extra.map toSMap with
-              | none => []
-              | some m => [stFieldBegin 13 id', stMapBegin 11 11 m.length] ++
-                  stKVs Facts.nocopyWriteThreshold w it) ++ [stStop]) (⟨sb, ds⟩, o)) := by
-  cases extra with
-  | none =>
-    simp only [ne_eq, not_true_eq_false, decide_false, Bool.false_eq_true, if_false, Option.map_none,
-      List.nil_append, wAll_cons]
-    exact sim_Stop enc pre n w ds0 hn sb ds o hsb ho hds oi hoi
-  | some l =>
-    simp only [ne_eq, reduceCtorEq, not_false_eq_true, decide_true, if_true, Option.map_some, List.cons_append,
-      List.nil_append, wAll_cons]
-    refine sim_FB enc pre n w ds0 hn 13 id 13 id' (by decide) hid sb ds o hsb ho oi hoi _ _ ?_
-    intro sb1 oi1 hsb1 ho1 hoi1
-    refine sim_MapBegin enc pre n w ds0 hn 11 11 _ 11 11 _ (by decide) (by decide) (be32_mapLen l) sb1 ds (o + 3) hsb1 ho1
-      oi1 hoi1 _ _ ?_
-    intro sb2 oi2 hsb2 ho2 hoi2
-    rw [wAll_append]
-    have ha : (fun t => afterLoop (ν := ν) (pre.length : Int) t) =
-        finishL fun s => gStop s.2.1 (pre.length : Int) s.2.2.1 s.2.2.2 := afterLoop_eq _
-    rw [ha]
-    refine sim_kvLoop J enc pre n w ds0 hn H (L (pre.length : Int)) (h0 _) (h1 _) _ _ it fuel sb2 ds (o + 3 + 6) oi2 hfuel
-      hsb2 ho2 hds hoi2 ?_
-    intro sb3 ds3 o3 oi3 hsb3 ho3 hds3 hoi3
-    rw [wAll_cons]
-    exact sim_Stop enc pre n w ds0 hn sb3 ds3 o3 hsb3 ho3 hds3 oi3 hoi3
+/-- an offset expression of the generated code is the model's offset: `wrap`s removed by range, then arithmetic -/
+macro "off_tac" : tactic => `(tactic| first
+  | (simp (disch := omega) only [wrap_i64_of_range]; first | omega | rfl)
+  | omega
+  | rfl)
 
-theorem base_loop_h0 {ν : Type} (J : NocopyI ν) (base : Int) (fuel : Nat) (b : Bytes)
-    (wv : Option ν) (off : Int) :
-    Funcs.Base_FastWriteNocopy_loop1 J base (fuel + 1) [] b wv off = .ok (.done ([], b, wv, off)) := rfl
+/-- a stored value of the generated code is the model's -/
+macro "fw_val" : tactic => `(tactic| first
+  | rfl
+  | decide
+  | exact be32_mapLen _
+  | (rw [ofInt_wrap 32 .u32 _ (by decide)])
+  | (rw [ofInt_wrap 16 .u16 _ (by decide)]))
 
-theorem base_loop_h1 {ν : Type} (J : NocopyI ν) (base : Int) (fuel : Nat) (kv : Bytes × Bytes)
-    (rest : List (Bytes × Bytes)) (b : Bytes) (wv : Option ν) (off : Int) :
-    Funcs.Base_FastWriteNocopy_loop1 J base (fuel + 1) (kv :: rest) b wv off =
-      gStr J kv.1 b base wv off fun b wv off =>
-        gStr J kv.2 b base wv off fun b wv off =>
-          Funcs.Base_FastWriteNocopy_loop1 J base fuel rest b wv off := rfl
+/-- both sides in the form the step lemmas expect: statement lists of the model unfolded to primitives, binds
+    right-nested, values substituted (`fw_norm`); at the start also the monad notation of the translation, the `derefP`
+    of the receiver and the guards, decided from the case facts in the context whatever form they have (`fw_start`) -/
+macro "fw_norm" : tactic => `(tactic| try (simp only [Out.bind_ok, Out.bind_eq, Out.pure_eq, Out_bind_assoc, wAll_nil, wAll_cons, wAll_append,
+  stFieldBegin, stStr, stMapBegin, stI32, stStop, List.cons_append, List.nil_append]))
 
-theorem resp_loop_h0 {ν : Type} (J : NocopyI ν) (base : Int) (fuel : Nat) (b : Bytes)
-    (wv : Option ν) (off : Int) :
-    Funcs.BaseResp_FastWriteNocopy_loop1 J base (fuel + 1) [] b wv off = .ok (.done ([], b, wv, off)) := rfl
+macro "fw_start" : tactic => `(tactic| (try (bsimp [derefP]); fw_norm))
 
-theorem resp_loop_h1 {ν : Type} (J : NocopyI ν) (base : Int) (fuel : Nat) (kv : Bytes × Bytes)
-    (rest : List (Bytes × Bytes)) (b : Bytes) (wv : Option ν) (off : Int) :
-    Funcs.BaseResp_FastWriteNocopy_loop1 J base (fuel + 1) (kv :: rest) b wv off =
-      gStr J kv.1 b base wv off fun b wv off =>
-        gStr J kv.2 b base wv off fun b wv off =>
-          Funcs.BaseResp_FastWriteNocopy_loop1 J base fuel rest b wv off := rfl
+set_option hygiene false in
+/-- one statement of the generated writer. The context keeps ONE fact of each kind under a fixed name (`hsb`: length of
+    the current buffer, `hbd`: the latest bound on the offset, `hds`: the recorder invariant; older ones are cleared:
+    `omega` slows down badly otherwise). The offset expression of the statement is replaced by the model's offset in
+    what follows (`rw [hoff]`), so that the offsets stay one `wrap` deep. -/
+macro "fw_step" : tactic => `(tactic| ((first
+  | (refine sim_set hsb (by off_tac) (by fw_val) ?_; clear hsb; (try clear hbd); intro sb hsb hbd hoff;
+     (try (rw [hoff])); clear hoff)
+  | (refine sim_put16 hsb (by off_tac) (by fw_val) ?_; clear hsb; (try clear hbd); intro sb hsb hbd)
+  | (refine sim_put32 hsb (by off_tac) (by fw_val) ?_; clear hsb; (try clear hbd); intro sb hsb hbd)
+  | (refine sim_wsn hn H hsb hds (by off_tac) ?_; clear hsb hds; (try clear hbd); intro sb ds k hsb hbd hds hoff;
+     (try rw [hoff]); clear hoff)
+  | (refine sim_ret hsb hds (by omega) (by off_tac))); fw_norm))
 
 /-! # (*Base).FastWriteNocopy / FastWrite / BLength -/
 
 /-- the receiver: `none` = the nil pointer -/
 def toBaseO (p : Option Funcs.S_base_Base) : Option Base := p.map toBase
 def toBaseRespO (p : Option Funcs.S_base_BaseResp) : Option BaseResp := p.map toBaseResp
+
+-- the step lemmas are selected by unification with the head primitive of the goal: a mismatch must fail at once and not
+-- by unfolding both primitives
+attribute [local irreducible] vset vfrom vputU16 vputU32 putByte put16 put32 writeStringNocopy
+  Funcs.Binary_WriteStringNocopy
+
+set_option hygiene false in
+/-- the loop's round (`hcons` of `sim_kvLoop`): unfold whichever generated loop function it is and walk its body -/
+macro "fw_loop_round" : tactic => `(tactic| (
+  intro fuel kv rest sb ds o oi Ky' hsb hbd hds hoi hrec
+  subst hoi
+  simp only [Funcs.Base_FastWriteNocopy_loop1, Funcs.BaseResp_FastWriteNocopy_loop1]
+  fw_start
+  fw_step
+  fw_step
+  refine hrec _ _ _ _ hsb (by omega) hds (by off_tac)))
+
+set_option hygiene false in
+/-- the `range` loop of the generated writer, then what follows it -/
+macro "fw_loop" : tactic => `(tactic| (
+  refine sim_kvLoop (by intros; rfl) (by clear hsb hds; (try clear hbd); fw_loop_round) _ _ _ _ _ _ hfuel hsb
+    (by omega) hds (by off_tac) ?_
+  clear hsb hds; (try clear hbd)
+  intro sb ds o oi hsb hbd hds hoff
+  subst hoff
+  fw_norm))
 
 theorem Base_FastWriteNocopy_sim {ν : Type} (J : NocopyI ν) (enc : Directs → Option ν) (w : Bool) (H : NCOK J w enc)
     (fuel : Nat) (it : List (Bytes × Bytes)) (p : Option Funcs.S_base_Base) (pre sb : Bytes) (hfuel : it.length < fuel)
@@ -839,35 +696,45 @@ theorem Base_FastWriteNocopy_sim {ν : Type} (J : NocopyI ν) (enc : Directs →
       (Funcs.Base_FastWriteNocopy J fuel it p (pre ++ sb) (pre.length : Int) (enc []))
       (fastWriteNocopyBase Facts.nocopyWriteThreshold w (toBaseO p) it sb) := by
   have hn : pre.length + sb.length < 2 ^ 62 := by simpa using hlen
+  have hds : w = false → ([] : Directs) = [] := fun _ => rfl
+  clear hlen
+  generalize hsb : sb.length = n at hn ⊢
+  unfold Funcs.Base_FastWriteNocopy
   cases p with
   | none =>
-    rw [Base_FastWriteNocopy_nil]
-    have hm : fastWriteNocopyBase Facts.nocopyWriteThreshold w (toBaseO none) it sb =
-        (stStop (⟨sb, []⟩, 0)).bind (wAll []) := by rw [bind_wAll_nil]; rfl
-    rw [hm]
-    exact sim_Stop enc pre sb.length w [] hn sb [] 0 rfl (by omega) (fun _ => rfl) 0 rfl
+    simp only [toBaseO, Option.map_none, fastWriteNocopyBase]
+    fw_start
+    repeat fw_step
   | some p =>
-    rw [Base_FastWriteNocopy_blocks]
-    simp only [toBaseO, Option.map_some, fastWriteNocopyBase, toBase, stExtraH, stHdr_base0, stHdr_base1,
-      stHdr_base2, stHdr_base3, List.cons_append, List.nil_append, wAll_cons]
-    refine sim_FB enc pre _ w [] hn 11 1 11 1 (by decide) (by decide) sb [] 0 rfl (by omega) 0 rfl _ _ ?_
-    intro sb1 oi1 hsb1 ho1 hoi1
-    refine sim_Str J enc pre _ w [] hn H _ sb1 [] _ hsb1 ho1 (fun _ => rfl) oi1 hoi1 _ _ ?_
-    intro sb2 ds2 k2 oi2 hsb2 ho2 hds2 hoi2
-    rw [wAll_cons]
-    refine sim_FB enc pre _ w [] hn 11 2 11 2 (by decide) (by decide) sb2 ds2 _ hsb2 ho2 oi2 hoi2 _ _ ?_
-    intro sb3 oi3 hsb3 ho3 hoi3
-    rw [wAll_cons]
-    refine sim_Str J enc pre _ w [] hn H _ sb3 ds2 _ hsb3 ho3 hds2 oi3 hoi3 _ _ ?_
-    intro sb4 ds4 k4 oi4 hsb4 ho4 hds4 hoi4
-    rw [wAll_cons]
-    refine sim_FB enc pre _ w [] hn 11 3 11 3 (by decide) (by decide) sb4 ds4 _ hsb4 ho4 oi4 hoi4 _ _ ?_
-    intro sb5 oi5 hsb5 ho5 hoi5
-    rw [wAll_cons]
-    refine sim_Str J enc pre _ w [] hn H _ sb5 ds4 _ hsb5 ho5 hds4 oi5 hoi5 _ _ ?_
-    intro sb6 ds6 k6 oi6 hsb6 ho6 hds6 hoi6
-    exact sim_extra J enc pre _ w [] hn H 6 6 (by decide) (fun base => Funcs.Base_FastWriteNocopy_loop1 J base)
-      (base_loop_h0 J) (base_loop_h1 J) p.Extra it fuel hfuel sb6 ds6 _ hsb6 ho6 hds6 oi6 hoi6
+    obtain ⟨logID, caller, addr, extra⟩ := p
+    cases extra with
+    | none =>
+      simp only [toBaseO, Option.map_some, toBase, Option.map_none, fastWriteNocopyBase, stExtraH, stHdr_base0,
+        stHdr_base1, stHdr_base2, stHdr_base3]
+      fw_start
+      repeat fw_step
+    | some l =>
+      simp only [toBaseO, Option.map_some, toBase, fastWriteNocopyBase, stExtraH, stHdr_base0,
+        stHdr_base1, stHdr_base2, stHdr_base3]
+      fw_start
+      repeat fw_step
+      fw_loop
+      repeat fw_step
+
+theorem bind_wAll_nil (x : TOut (WS × Nat)) : x.bind (wAll []) = x := by
+  cases x <;> rfl
+
+theorem WSim.lift {pre : Bytes} {n : Nat} {w : Bool} {ds0 : Directs} {x : GM (Bytes × Option Directs × Int)}
+    {y : TOut (WS × Nat)} (h : WSim (wOpt w) pre n w ds0 x y) :
+    liftWN ds0 x = y.bind fun r => .ok (⟨pre ++ r.1.buf, r.1.ds⟩, r.2) := by
+  cases y with
+  | ok r =>
+    obtain ⟨_, _, hds, rfl⟩ := h
+    simp only [liftWN, Out.bind_ok, wOpt_getD w r.1.ds ds0 hds, Int.toNat_natCast]
+  | panic s => subst h; rfl
+  | err te => exact h.elim
+  | oob => exact h.elim
+
 
 /-- (*Base).FastWriteNocopy(b[off:], w) on the view `(pre ++ sb, pre.length)` IS the model `fastWriteNocopyBase` on
     `sb`, for every sequence `it` the `range` over `p.Extra` visits, a nil or non-nil receiver, a nil (`w = false`) or a
@@ -911,7 +778,8 @@ theorem WSim.liftNil {pre : Bytes} {n : Nat} {x : GM (Bytes × Option Unit × In
 theorem Base_FastWrite_unfold (fuel : Nat) (it : List (Bytes × Bytes)) (p : Option Funcs.S_base_Base) (b : Bytes)
     (base : Int) :
     Funcs.Base_FastWrite fuel it p b base =
-      (Funcs.Base_FastWriteNocopy nilNocopy fuel it p b base (none : Option Unit)).bind fun t => .ok (t.1, t.2.2) := rfl
+      (Funcs.Base_FastWriteNocopy nilNocopy fuel it p b base (none : Option Unit)).bind fun t => .ok (t.1, t.2.2) := by
+  first | rfl | (unfold Funcs.Base_FastWrite; simp only [Out.bind_eq, Out.pure_eq])
 
 /-- (*Base).FastWrite(b[off:]) on the view: `FastWriteNocopy(b, nil)` -/
 theorem Base_FastWrite_view (fuel : Nat) (it : List (Bytes × Bytes)) (p : Option Funcs.S_base_Base) (pre sb : Bytes)
@@ -939,30 +807,30 @@ theorem BaseResp_FastWriteNocopy_sim {ν : Type} (J : NocopyI ν) (enc : Directs
       (Funcs.BaseResp_FastWriteNocopy J fuel it p (pre ++ sb) (pre.length : Int) (enc []))
       (fastWriteNocopyBaseResp Facts.nocopyWriteThreshold w (toBaseRespO p) it sb) := by
   have hn : pre.length + sb.length < 2 ^ 62 := by simpa using hlen
+  have hds : w = false → ([] : Directs) = [] := fun _ => rfl
+  clear hlen
+  generalize hsb : sb.length = n at hn ⊢
+  unfold Funcs.BaseResp_FastWriteNocopy
   cases p with
   | none =>
-    rw [BaseResp_FastWriteNocopy_nil]
-    have hm : fastWriteNocopyBaseResp Facts.nocopyWriteThreshold w (toBaseRespO none) it sb =
-        (stStop (⟨sb, []⟩, 0)).bind (wAll []) := by rw [bind_wAll_nil]; rfl
-    rw [hm]
-    exact sim_Stop enc pre sb.length w [] hn sb [] 0 rfl (by omega) (fun _ => rfl) 0 rfl
+    simp only [toBaseRespO, Option.map_none, fastWriteNocopyBaseResp]
+    fw_start
+    repeat fw_step
   | some p =>
-    rw [BaseResp_FastWriteNocopy_blocks]
-    simp only [toBaseRespO, Option.map_some, fastWriteNocopyBaseResp, toBaseResp, stExtraH, stHdr_resp0, stHdr_resp1,
-      stHdr_resp2, List.cons_append, List.nil_append, wAll_cons]
-    refine sim_FB enc pre _ w [] hn 11 1 11 1 (by decide) (by decide) sb [] 0 rfl (by omega) 0 rfl _ _ ?_
-    intro sb1 oi1 hsb1 ho1 hoi1
-    refine sim_Str J enc pre _ w [] hn H _ sb1 [] _ hsb1 ho1 (fun _ => rfl) oi1 hoi1 _ _ ?_
-    intro sb2 ds2 k2 oi2 hsb2 ho2 hds2 hoi2
-    rw [wAll_cons]
-    refine sim_FB enc pre _ w [] hn 8 2 8 2 (by decide) (by decide) sb2 ds2 _ hsb2 ho2 oi2 hoi2 _ _ ?_
-    intro sb3 oi3 hsb3 ho3 hoi3
-    rw [wAll_cons]
-    refine sim_I32 enc pre _ w [] hn (wrap .u32 p.StatusCode) p.StatusCode
-      (by rw [ofInt_wrap 32 .u32 _ (by decide)]) sb3 ds2 _ hsb3 ho3 oi3 hoi3 _ _ ?_
-    intro sb4 oi4 hsb4 ho4 hoi4
-    exact sim_extra J enc pre _ w [] hn H 3 3 (by decide) (fun base => Funcs.BaseResp_FastWriteNocopy_loop1 J base)
-      (resp_loop_h0 J) (resp_loop_h1 J) p.Extra it fuel hfuel sb4 ds2 _ hsb4 ho4 hds2 oi4 hoi4
+    obtain ⟨msg, code, extra⟩ := p
+    cases extra with
+    | none =>
+      simp only [toBaseRespO, Option.map_some, toBaseResp, Option.map_none, fastWriteNocopyBaseResp, stExtraH,
+        stHdr_resp0, stHdr_resp1, stHdr_resp2]
+      fw_start
+      repeat fw_step
+    | some l =>
+      simp only [toBaseRespO, Option.map_some, toBaseResp, fastWriteNocopyBaseResp, stExtraH, stHdr_resp0,
+        stHdr_resp1, stHdr_resp2]
+      fw_start
+      repeat fw_step
+      fw_loop
+      repeat fw_step
 
 /-- (*BaseResp).FastWriteNocopy(b[off:], w) on the view `(pre ++ sb, pre.length)` IS the model on `sb` -/
 theorem BaseResp_FastWriteNocopy_view (e : Directs → Bytes → Int → GoErr) (w : Bool) (fuel : Nat)
@@ -987,7 +855,8 @@ theorem BaseResp_FastWrite_unfold (fuel : Nat) (it : List (Bytes × Bytes)) (p :
     (b : Bytes) (base : Int) :
     Funcs.BaseResp_FastWrite fuel it p b base =
       (Funcs.BaseResp_FastWriteNocopy nilNocopy fuel it p b base (none : Option Unit)).bind fun t =>
-        .ok (t.1, t.2.2) := rfl
+        .ok (t.1, t.2.2) := by
+  first | rfl | (unfold Funcs.BaseResp_FastWrite; simp only [Out.bind_eq, Out.pure_eq])
 
 theorem BaseResp_FastWrite_view (fuel : Nat) (it : List (Bytes × Bytes)) (p : Option Funcs.S_base_BaseResp)
     (pre sb : Bytes) (hfuel : it.length < fuel) (hlen : (pre ++ sb).length < 2 ^ 62) :
@@ -1017,90 +886,101 @@ theorem blenKVs_ge (it : SMap) (off : Nat) : off ≤ blenKVs it off := by
     have := ih (off + (4 + k.length) + (4 + v.length))
     simp only [blenKVs]; omega
 
-/-- any function with the two defining equations of the generated BLength loop computes `blenKVs` -/
-theorem blen_loop
-    (L : Nat → List (Bytes × Bytes) → Int → GM (LoopR Int (List (Bytes × Bytes) × Int)))
+/-- The BLength loop, for ANY function `L` that is done on the empty sequence and whose round on `kv :: rest` adds the two
+    string lengths (`h1`, stated on natural numbers: however the generated code parenthesises or orders the sum); `F` is
+    what the enclosing function does with the loop's outcome. `L` is found by unification, `h0` / `h1` are proved at the
+    use site by unfolding the generated loop function. -/
+theorem blen_loop_bind {ρ : Type}
+    {L : Nat → List (Bytes × Bytes) → Int → GM (LoopR Int (List (Bytes × Bytes) × Int))}
+    {F : LoopR Int (List (Bytes × Bytes) × Int) → GM ρ} {R : GM ρ}
     (h0 : ∀ fuel off, L (fuel + 1) [] off = .ok (.done ([], off)))
-    (h1 : ∀ fuel kv rest off, L (fuel + 1) (kv :: rest) off =
-      L fuel rest (wrap .i64 (wrap .i64 (off + wrap .i64 (4 + len kv.1)) + wrap .i64 (4 + len kv.2)))) :
-    ∀ (it : List (Bytes × Bytes)) (fuel : Nat) (off : Nat) (oi : Int), it.length < fuel → blenKVs it off < 2 ^ 62 →
-      oi = (off : Int) → L fuel it oi = .ok (.done ([], ((blenKVs it off : Nat) : Int))) := by
-  intro it
-  induction it with
-  | nil =>
-    intro fuel off oi hf _ hoi
-    subst hoi
-    obtain ⟨fuel, rfl⟩ : ∃ k, fuel = k + 1 := ⟨fuel - 1, by simp at hf; omega⟩
-    rw [h0]; rfl
-  | cons kv rest ih =>
-    intro fuel off oi hf hb hoi
-    subst hoi
-    obtain ⟨fuel, rfl⟩ : ∃ k, fuel = k + 1 := ⟨fuel - 1, by simp at hf; omega⟩
-    obtain ⟨k, v⟩ := kv
-    have hge := blenKVs_ge rest (off + (4 + k.length) + (4 + v.length))
-    simp only [blenKVs] at hb
-    have e : wrap .i64 (wrap .i64 ((off : Int) + wrap .i64 (4 + len k)) + wrap .i64 (4 + len v)) =
-        ((off + (4 + k.length) + (4 + v.length) : Nat) : Int) := by
-      unfold len
-      rw [wrap_i64_of_range (4 + (k.length : Int)) (by omega) (by omega),
-        wrap_i64_of_range (4 + (v.length : Int)) (by omega) (by omega),
-        wrap_i64_of_range ((off : Int) + (4 + (k.length : Int))) (by omega) (by omega),
-        wrap_i64_of_range _ (by omega) (by omega)]
-      omega
-    rw [h1, e, ih fuel _ _ (by simp at hf; omega) hb rfl]
-    rfl
+    (h1 : ∀ fuel (kv : Bytes × Bytes) rest (off : Nat), off + (4 + kv.1.length) + (4 + kv.2.length) < 2 ^ 62 →
+      L (fuel + 1) (kv :: rest) (off : Int) = L fuel rest ((off + (4 + kv.1.length) + (4 + kv.2.length) : Nat) : Int))
+    (it : List (Bytes × Bytes)) (fuel : Nat) (off : Nat) (oi : Int) (hf : it.length < fuel)
+    (hb : blenKVs it off < 2 ^ 62) (hoi : oi = (off : Int))
+    (hF : F (.done ([], ((blenKVs it off : Nat) : Int))) = R) :
+    (L fuel it oi).bind F = R := by
+  subst hoi
+  have key : ∀ (it : List (Bytes × Bytes)) (fuel off : Nat), it.length < fuel → blenKVs it off < 2 ^ 62 →
+      L fuel it (off : Int) = .ok (.done ([], ((blenKVs it off : Nat) : Int))) := by
+    intro it
+    induction it with
+    | nil =>
+      intro fuel off hf _
+      obtain ⟨fuel, rfl⟩ : ∃ k, fuel = k + 1 := ⟨fuel - 1, by simp at hf; omega⟩
+      rw [h0]; rfl
+    | cons kv rest ih =>
+      intro fuel off hf hb
+      obtain ⟨fuel, rfl⟩ : ∃ k, fuel = k + 1 := ⟨fuel - 1, by simp at hf; omega⟩
+      obtain ⟨k, v⟩ := kv
+      have hge := blenKVs_ge rest (off + (4 + k.length) + (4 + v.length))
+      simp only [blenKVs] at hb ⊢
+      rw [h1 _ _ _ _ (by simp only; omega), ih fuel _ (by simp at hf; omega) hb]
+  rw [key it fuel off hf hb, Out.bind_ok, hF]
+
+/-- the round of the generated BLength loops: unfold whichever it is; the sum in `int` is the sum in `Nat` -/
+macro "blen_round" : tactic => `(tactic| (
+  intro fuel kv rest off hb
+  simp only [Funcs.Base_BLength_loop1, Funcs.BaseResp_BLength_loop1, len]
+  (try (simp (disch := omega) only [wrap_i64_of_range]))
+  first | done | rfl | (congr 1; omega)))
+
+/-- straight-line `int` arithmetic of a generated BLength: the result is the model's natural number -/
+macro "blen_arith" : tactic => `(tactic| (
+  (try unfold len)
+  (try (simp (disch := omega) only [wrap_i64_of_range, Out.bind_ok, Out.pure_eq]))
+  first | done | rfl | (congr 1; omega) | omega))
 
 /-- `p.BLength()` translated from the Go source IS the model `bLengthBase p it`, for every visited sequence `it`
     (as long as the sum fits a Go `int` with room to spare) -/
 theorem Base_BLength_eq (fuel : Nat) (it : List (Bytes × Bytes)) (p : Option Funcs.S_base_Base)
     (hfuel : it.length < fuel) (hb : bLengthBase (toBaseO p) it < 2 ^ 62) :
     Funcs.Base_BLength fuel it p = .ok ((bLengthBase (toBaseO p) it : Nat) : Int) := by
+  unfold Funcs.Base_BLength
   cases p with
-  | none => rfl
+  | none =>
+    simp only [toBaseO, Option.map_none, bLengthBase]
+    first | rfl | (bsimp; first | done | rfl)
   | some p =>
-    unfold Funcs.Base_BLength
-    simp only [toBaseO, Option.map_some, bLengthBase, toBase, blenExtra] at hb ⊢
-    cases hx : p.Extra with
+    obtain ⟨logID, caller, addr, extra⟩ := p
+    cases extra with
     | none =>
-      simp only [hx, Option.map_none] at hb ⊢
-      unfold len
-      go_simp [derefP, hx, wrap_i64_of_range]
+      simp only [toBaseO, Option.map_some, bLengthBase, toBase, blenExtra, Option.map_none] at hb ⊢
+      bsimp [derefP]
+      blen_arith
     | some l =>
-      simp only [hx, Option.map_some, Nat.zero_add] at hb ⊢
-      generalize hN : 3 + (4 + p.LogID.length) + 3 + (4 + p.Caller.length) + 3 + (4 + p.Addr.length) + 3 + 6 = N
-        at hb ⊢
+      simp only [toBaseO, Option.map_some, bLengthBase, toBase, blenExtra, Nat.zero_add] at hb ⊢
+      generalize hN : 3 + (4 + logID.length) + 3 + (4 + caller.length) + 3 + (4 + addr.length) + 3 + 6 = N at hb ⊢
       have hge := blenKVs_ge it N
-      unfold len
-      go_simp [derefP, hx, wrap_i64_of_range]
-      rw [blen_loop Funcs.Base_BLength_loop1 (fun _ _ => rfl) (fun _ _ _ _ => rfl) it fuel N _ hfuel (by omega)
-        (by omega)]
-      simp only [Out.bind_ok]
-      rw [wrap_i64_of_range _ (by omega) (by omega)]
+      bsimp [derefP]
+      refine blen_loop_bind (by intros; rfl) (by blen_round) it fuel N _ hfuel (by omega) (by rw [← hN]; blen_arith) ?_
+      bsimp
+      blen_arith
 
 /-- `p.BLength()` of a `*BaseResp` IS the model `bLengthBaseResp p it` -/
 theorem BaseResp_BLength_eq (fuel : Nat) (it : List (Bytes × Bytes)) (p : Option Funcs.S_base_BaseResp)
     (hfuel : it.length < fuel) (hb : bLengthBaseResp (toBaseRespO p) it < 2 ^ 62) :
     Funcs.BaseResp_BLength fuel it p = .ok ((bLengthBaseResp (toBaseRespO p) it : Nat) : Int) := by
+  unfold Funcs.BaseResp_BLength
   cases p with
-  | none => rfl
+  | none =>
+    simp only [toBaseRespO, Option.map_none, bLengthBaseResp]
+    first | rfl | (bsimp; first | done | rfl)
   | some p =>
-    unfold Funcs.BaseResp_BLength
-    simp only [toBaseRespO, Option.map_some, bLengthBaseResp, toBaseResp, blenExtra] at hb ⊢
-    cases hx : p.Extra with
+    obtain ⟨msg, code, extra⟩ := p
+    cases extra with
     | none =>
-      simp only [hx, Option.map_none] at hb ⊢
-      unfold len
-      go_simp [derefP, hx, wrap_i64_of_range]
+      simp only [toBaseRespO, Option.map_some, bLengthBaseResp, toBaseResp, blenExtra, Option.map_none] at hb ⊢
+      bsimp [derefP]
+      blen_arith
     | some l =>
-      simp only [hx, Option.map_some, Nat.zero_add] at hb ⊢
-      generalize hN : 3 + (4 + p.StatusMessage.length) + 3 + 4 + 3 + 6 = N at hb ⊢
+      simp only [toBaseRespO, Option.map_some, bLengthBaseResp, toBaseResp, blenExtra, Nat.zero_add] at hb ⊢
+      generalize hN : 3 + (4 + msg.length) + 3 + 4 + 3 + 6 = N at hb ⊢
       have hge := blenKVs_ge it N
-      unfold len
-      go_simp [derefP, hx, wrap_i64_of_range]
-      rw [blen_loop Funcs.BaseResp_BLength_loop1 (fun _ _ => rfl) (fun _ _ _ _ => rfl) it fuel N _ hfuel (by omega)
-        (by omega)]
-      simp only [Out.bind_ok]
-      rw [wrap_i64_of_range _ (by omega) (by omega)]
+      bsimp [derefP]
+      refine blen_loop_bind (by intros; rfl) (by blen_round) it fuel N _ hfuel (by omega) (by rw [← hN]; blen_arith) ?_
+      bsimp
+      blen_arith
 
 /-! ## the generated functions compute (non-vacuity) -/
 
